@@ -74,3 +74,15 @@ Lemma rule_names_from_g4 :
 Proof. vm_compute. repeat split; reflexivity. Qed.
 
 Lemma rule_count_ok : List.length parser_rule_names = parser_rule_count. Proof. reflexivity. Qed.
+
+(* The generated Python parser calls adaptivePredict(decision) only at the state of that decision (or, for a starred
+   block, at its loop-back state): the decision numbers in the generated code are those of the embedded automaton. *)
+Definition predict_site_ok (sd : N * N) : bool :=
+  match nth_error atn_decision_states (N.to_nat (snd sd)) with
+  | Some (e, l) => (N.eqb (fst sd) e || N.eqb (fst sd) l)%bool
+  | None => false
+  end.
+Lemma predict_sites_ok : forallb predict_site_ok py_predict_sites = true.
+Proof. vm_compute. reflexivity. Qed.
+Lemma predict_sites_nonempty : py_predict_sites <> [].
+Proof. discriminate. Qed.
